@@ -37,11 +37,12 @@ RULE = ("scenarios = configuration (role, allowed methods, heartbeat limits, ref
         "non-trivial = at least one inbound operation; distinct = distinct scenario line")
 
 
-def session_check(pid, what):
+def session_check(pid, what, with_timing=False):
     def chk(_pid, tier, seed, t0):
+        extra = [("timing", 0, 0, ["-tier", tier], "timing", "timer")] if with_timing else None
         return p_codec.generic_codec_check(
             pid, tier, seed, t0,
-            runs=[("session", 1500, 40000, None)],
+            runs=[("session", 1500, 40000, None)], extra_runs=extra,
             nontrivial=lambda r: " IN " in r["case"],
             rule=RULE + "; oracle for this property: " + what,
             assumptions=SESSION_ASSUMPTIONS,
@@ -53,8 +54,10 @@ check_C06 = session_check("C06", "logged on only through an acceptable Logon in 
                                  "one echoing Logon answer; every other Logon -> one Reject by sequence number naming the offending tag; state kept")
 check_C07 = session_check("C07", "message types on the wire before the first logged-on state are within {A,5,3}")
 check_C16 = session_check("C16", "each invalid/not-permitted admin message -> exactly one Reject with RefSeqNum (or RefTagID=34), state/context unchanged")
-check_C14 = session_check("C14", "each TestRequest while logged on -> exactly one Heartbeat with identical TestReqID")
+check_C14 = session_check("C14", "each TestRequest while logged on -> exactly one Heartbeat with identical TestReqID; real-time scenario: a "
+                                 "TestRequest arriving while the session waits for the answer to its own TestRequest", with_timing=True)
 check_C10 = session_check("C10", "resend answers = recorded first transmissions b..e byte-identical, nothing outside the range; gap request starts at the first missing number")
-check_C15 = session_check("C15", "peer Logout -> one Logout, not logged; own Logout -> none on the answer, logout event, context cancelled after Stop")
+check_C15 = session_check("C15", "peer Logout -> one Logout, not logged; own Logout -> none on the answer, logout event, context cancelled after Stop; "
+                                 "real-time scenario: Stop with close timeouts 0 / 50 ms / 500 ms and a silent peer", with_timing=True)
 check_C19 = session_check("C19", "every transmitted message was saved under its number earlier in the same step; failed save / refusal -> not transmitted")
 check_C05 = session_check("C05", "new sequence numbers consecutive from the stored counter, comp ids, SendingTime format")
